@@ -199,8 +199,8 @@ def families(tier):
         fams.append(Pairs('Sg-in-linelike', pose, ll['Line'] + ll['HalfLine'] + ll['Segment'], ll['Segment'], chunk=6))
         fams.append(Pairs('Hl-in-Ln/Hl', pose, ll['Line'] + ll['HalfLine'], ll['HalfLine'], chunk=6))
         fams.append(Pairs('linelike-in-plane', pose, planes, ll['Line'] + ll['HalfLine'] + ll['Segment'], chunk=4))
-        fams.append(Pairs('Pg-in-plane', pose, [X.Pl(f, n) for b in ('triangle', 'hexagon') for f in base_features(A.body(b))[::2]
-                                                for n in plane_normals(A.body(b))],
+        fams.append(Pairs('Pg-in-plane', pose, [X.Pl(X.add(f, off), n) for b in ('triangle', 'hexagon') for f in base_features(A.body(b))[::2]
+                                                for n in plane_normals(A.body(b)) for off in ((0, 0, 0), (0, 0, 1), (0, 0, -1))],
                           [A.body(b) for b in A.POLYGONS]))
         for b in bodies:
             fams.append(BodyCands(b, pose, tier))
